@@ -515,7 +515,7 @@ def compare_typed(out, rec, exp, got_outcome, via):
         if not value_equal(x, d, b):
             fam = G.family(b)
             if isinstance(x, bool) and fam != 'boolean':
-                out.fail('C20/typed-value/value/boolean', '%s %s text=%r type=%s: got %r expected %r (a boolean member '
+                out.fail('C20/typed-value/union/boolean-member-accepts-non-boolean-text', '%s %s text=%r type=%s: got %r expected %r (a boolean member '
                          'type accepted text that is not a boolean lexical)' % (via, rec.path, rec.text, rec.tdesc, x, d))
                 return 'bad'
             if rec.union_derived_member:
